@@ -73,7 +73,19 @@ class SubstituteInterpretation(Interpretation):
                 for k, v in self.subs
                 if k in expr.fresh and (self.fresh is None or k in self.fresh)
             )
-            if fresh_subs:
+            # Names that were fresh in the term being rebuilt but are ordinary
+            # inputs of the compound term it evaluated to.
+            deferred_subs = tuple(
+                (k, v)
+                for k, v in self.subs
+                if self.fresh is not None
+                and k in self.fresh
+                and k not in expr.fresh
+                and k in expr.inputs
+            )
+            if deferred_subs:
+                expr = substitute(expr, fresh_subs + deferred_subs)
+            elif fresh_subs:
                 expr = instrument.debug_logged(expr.eager_subs)(fresh_subs)
             if instrument.PROFILE:
                 instrument.COUNTERS["interpretation"]["substitute"] += 1
